@@ -251,8 +251,8 @@ def main(argv=None):
     n_ob = len(R)
     n_failed = len(set(f.oid for f in mine if f.oid in R)) + len(set(f.oid for f in mine if f.oid not in R))
     cov = evidence['coverage']
-    cov['obligations'] = n_ob + sum(v.get('checks', 0) for v in kani_cov.values())
-    cov['discharged'] = max(0, n_ob - len(set(f.oid for f in mine if f.oid in R))) + sum(v.get('checks', 0) for v in kani_cov.values() if v.get('ok'))
+    cov['obligations'] = n_ob + len(kani_cov)
+    cov['discharged'] = max(0, n_ob - len(set(f.oid for f in mine if f.oid in R))) + sum(1 for v in kani_cov.values() if v.get('ok'))
     cov['by_back_end'] = {
         'verus': {'obligations': n_ob, 'failed': sorted(set(f.oid for f in mine)), 'verified_items_total': res.verified, 'errors_total': res.errors,
                   'solver_ms': res.times.get('smt', {}).get('total'), 'wall_ms': res.times.get('total'), 'version': res.version},
